@@ -418,3 +418,25 @@ def report_product(rep, program: Program, rule: str, classes, what: str, after_a
         rep.fail(rule, construct, m["loc"], f"{m['message']} [mark sequence: {m['path']}] code={m['code'][:200]} reference={m['ref'][:200]}",
                  {"mark_sequence": m["path"], "code": m["code"], "reference": m["ref"], "class": m["cls"]})
     return facts
+
+
+def guard(rep, rule: str, fn, what: str = "splitter product"):
+    """Runs a rule that rests on the splitter product / the mark regex.  Where the product cannot be set up for this organisation of
+    the splitter (an analysis limit, not a property of the code), the rule is reported as not decided - the document and grammar tables
+    of the same property, which only need the interpreter to follow the code, decide alone (a bounded claim, said so in the evidence)."""
+    try:
+        return fn()
+    except AnalysisError as e:
+        msg = str(e)
+        rep.not_decided.append(f"{rule} ({what}) is not decided for this organisation of the splitter: {msg[:300]}; the concrete tables decide")
+        rep.extra["exhaustive"] = False
+        rep.extra.setdefault("product_missing", []).append(rule)
+        rep.ok(rule, "splitter-product-not-applicable", "bibtexparser/splitter.py", msg[:200], nontrivial=False)
+        return None
+
+
+def tables_must_have_decided(rep, prop: str, decided_rules):
+    """With the product missing, at least one concrete table of the property must have run (each raises itself when it cannot follow
+    the code): never a pass on nothing."""
+    if rep.extra.get("product_missing") and not decided_rules:
+        raise AnalysisError(f"{prop}: neither the splitter product nor a concrete table could be applied: {rep.extra['product_missing']}")
